@@ -6,4 +6,592 @@ import TB.Model.Torrent
 import TB.Spec.LayoutSpec
 namespace TB
 
+/-! ### prefix sums -/
+
+/-- global position of a cursor (file index, bytes remaining in that file) -/
+def gpos (files : List Nat) (fi rem : Nat) : Nat := base files fi + (files[fi]! - rem)
+
+theorem base_succ (files : List Nat) (i : Nat) (h : i < files.length) :
+    base files (i+1) = base files i + files[i] := by
+  unfold base
+  rw [List.take_add_one, List.sum_append, List.getElem?_eq_getElem h]
+  simp
+
+theorem base_le (files : List Nat) (i : Nat) : base files i ≤ files.sum := by
+  unfold base
+  have := List.take_append_drop i files
+  have h2 : files.sum = (files.take i).sum + (files.drop i).sum := by
+    rw [← List.sum_append, this]
+  omega
+
+theorem base_all (files : List Nat) : base files files.length = files.sum := by simp [base]
+
+theorem base_zero (files : List Nat) : base files 0 = 0 := by simp [base]
+
+theorem gpos_end (files : List Nat) : gpos files files.length 0 = files.sum := by
+  simp [gpos, base_all]
+
+/-! ### the interval spec, restarted from file `fi` -/
+
+theorem expAux_nil_of_hi_le (lo hi : Nat) :
+    ∀ (l : List Nat) (idx b : Nat), hi ≤ b → expectedSegsAux lo hi l idx b = [] := by
+  intro l
+  induction l with
+  | nil => intros; simp [expectedSegsAux]
+  | cons n rest ih =>
+    intro idx b h
+    have h1 : ¬ (max lo b < min hi (b + n)) := by omega
+    simp only [expectedSegsAux, h1, if_false, List.nil_append]
+    exact ih _ _ (by omega)
+
+theorem expAux_lo_congr (lo lo' hi : Nat) :
+    ∀ (l : List Nat) (idx b : Nat), lo ≤ b → lo' ≤ b →
+      expectedSegsAux lo hi l idx b = expectedSegsAux lo' hi l idx b := by
+  intro l
+  induction l with
+  | nil => intros; simp [expectedSegsAux]
+  | cons n rest ih =>
+    intro idx b h h'
+    have h1 : max lo b = b := by omega
+    have h2 : max lo' b = b := by omega
+    simp only [expectedSegsAux, h1, h2]
+    rw [ih _ _ (by omega) (by omega)]
+
+def expFrom (files : List Nat) (lo hi fi : Nat) : List Seg :=
+  expectedSegsAux lo hi (files.drop fi) fi (base files fi)
+
+theorem expFrom_step (files : List Nat) (lo hi fi : Nat) (hfi : fi < files.length) :
+    expFrom files lo hi fi =
+      (if max lo (base files fi) < min hi (base files (fi+1)) then
+        [⟨fi, max lo (base files fi) - base files fi,
+          min hi (base files (fi+1)) - max lo (base files fi), files[fi]⟩] else [])
+      ++ expFrom files lo hi (fi+1) := by
+  unfold expFrom
+  rw [List.drop_eq_getElem_cons hfi]
+  simp only [expectedSegsAux, base_succ files fi hfi]
+
+theorem expFrom_end (files : List Nat) (lo hi : Nat) : expFrom files lo hi files.length = [] := by
+  simp [expFrom, expectedSegsAux]
+
+theorem expFrom_nil_of_hi_le (files : List Nat) (lo hi fi : Nat) (h : hi ≤ base files fi) :
+    expFrom files lo hi fi = [] := expAux_nil_of_hi_le _ _ _ _ _ h
+
+theorem expFrom_lo_congr (files : List Nat) (lo lo' hi fi : Nat)
+    (h : lo ≤ base files fi) (h' : lo' ≤ base files fi) :
+    expFrom files lo hi fi = expFrom files lo' hi fi := expAux_lo_congr _ _ _ _ _ _ h h'
+
+theorem expFrom_zero_eq (files : List Nat) (lo hi : Nat) :
+    ∀ fi, fi ≤ files.length → base files fi ≤ lo → expFrom files lo hi 0 = expFrom files lo hi fi := by
+  intro fi
+  induction fi with
+  | zero => intros; rfl
+  | succ k ih =>
+    intro hk hb
+    have hk' : k < files.length := by omega
+    have hs := base_succ files k hk'
+    rw [ih (by omega) (by omega), expFrom_step files lo hi k hk']
+    have : ¬ (max lo (base files k) < min hi (base files (k+1))) := by omega
+    simp [this]
+
+/-! ### postcondition of the inner loop -/
+
+theorem expAux_nil_of_hi_le_lo (lo hi : Nat) (hh : hi ≤ lo) :
+    ∀ (l : List Nat) (idx b : Nat), expectedSegsAux lo hi l idx b = [] := by
+  intro l
+  induction l with
+  | nil => intros; simp [expectedSegsAux]
+  | cons n rest ih =>
+    intro idx b
+    have h1 : ¬ (max lo b < min hi (b + n)) := by omega
+    simp only [expectedSegsAux, h1, if_false, List.nil_append]
+    exact ih _ _
+
+def CursorOk (files : List Nat) (fi rem : Nat) : Prop :=
+  (fi = files.length ∧ rem = 0) ∨
+  (fi < files.length ∧ rem ≤ files[fi]! ∧ (rem = 0 → files[fi]! = 0))
+
+def SegOk (files : List Nat) (s : Seg) : Prop :=
+  some s.flen = files[s.file]? ∧ s.off + s.len ≤ s.flen ∧ (s.len = 0 → s.flen = 0)
+
+structure FillPost (files : List Nat) (lo n fi : Nat) (segs : List Seg) (fi' rem' : Nat) : Prop where
+  flat : segs.flatMap (addr files) = List.range' lo n
+  pos : gpos files fi' rem' = lo + n
+  cursor : CursorOk files fi' rem'
+  segok : ∀ s ∈ segs, SegOk files s
+  lower : ∀ s ∈ segs, fi ≤ s.file
+  incr : (segs.map (·.file)).Pairwise (· < ·)
+  sumlen : (segs.map (·.len)).sum = n
+  closed : segs.filter (fun s => s.len > 0) = expFrom files lo (lo + n) fi
+
+theorem FillPost_nil (files : List Nat) (fi rem : Nat) (hc : CursorOk files fi rem) :
+    FillPost files (gpos files fi rem) 0 fi [] fi rem where
+  flat := by simp
+  pos := by simp
+  cursor := hc
+  segok := by simp
+  lower := by simp
+  incr := by simp
+  sumlen := by simp
+  closed := by
+    simp only [List.filter_nil, Nat.add_zero, expFrom]
+    exact (expAux_nil_of_hi_le_lo _ _ (Nat.le_refl _) _ _ _).symm
+
+theorem FillPost_single (files : List Nat) (fi rem n fi' rem' : Nat) (hfi : fi < files.length)
+    (hrem : rem ≤ files[fi]) (hn : n ≤ rem) (hn0 : n = 0 → files[fi] = 0)
+    (hpos : gpos files fi' rem' = gpos files fi rem + n) (hc : CursorOk files fi' rem') :
+    FillPost files (gpos files fi rem) n fi [⟨fi, files[fi] - rem, n, files[fi]⟩] fi' rem' := by
+  have hbang : files[fi]! = files[fi] := by simp [hfi]
+  have hb1 := base_succ files fi hfi
+  have hg : gpos files fi rem = base files fi + (files[fi] - rem) := by simp [gpos, hbang]
+  refine ⟨?_, hpos, hc, ?_, ?_, ?_, ?_, ?_⟩
+  · simp [addr, hg]
+  · intro s hs
+    simp only [List.mem_singleton] at hs
+    subst hs
+    refine ⟨by simp [hfi], ?_, ?_⟩
+    · show files[fi] - rem + n ≤ files[fi]; omega
+    · exact hn0
+  · intro s hs
+    simp only [List.mem_singleton] at hs
+    subst hs; exact Nat.le_refl _
+  · simp
+  · simp
+  · rw [expFrom_step files _ _ fi hfi, expFrom_nil_of_hi_le files _ _ (fi+1) (by omega)]
+    by_cases h0 : n = 0
+    · have : ¬ (max (gpos files fi rem) (base files fi) < min (gpos files fi rem + n) (base files (fi+1))) := by omega
+      rw [if_neg this]
+      simp [h0]
+    · have : (max (gpos files fi rem) (base files fi) < min (gpos files fi rem + n) (base files (fi+1))) := by omega
+      simp only [this, if_true, List.append_nil]
+      have h1 : max (gpos files fi rem) (base files fi) - base files fi = files[fi] - rem := by omega
+      have h2 : min (gpos files fi rem + n) (base files (fi+1)) - max (gpos files fi rem) (base files fi) = n := by omega
+      rw [h1, h2]
+      simp [List.filter, Nat.pos_of_ne_zero h0]
+
+theorem FillPost_cons (files : List Nat) (fi rem n fi' rem' : Nat) (segs : List Seg)
+    (hfi : fi < files.length) (hrem : rem ≤ files[fi]) (h0 : rem = 0 → files[fi] = 0)
+    (ih : FillPost files (gpos files fi rem + rem) n (fi+1) segs fi' rem') :
+    FillPost files (gpos files fi rem) (rem + n) fi (⟨fi, files[fi] - rem, rem, files[fi]⟩ :: segs) fi' rem' := by
+  have hbang : files[fi]! = files[fi] := by simp [hfi]
+  have hb1 := base_succ files fi hfi
+  have hg : gpos files fi rem = base files fi + (files[fi] - rem) := by simp [gpos, hbang]
+  refine ⟨?_, ?_, ih.cursor, ?_, ?_, ?_, ?_, ?_⟩
+  · simp only [List.flatMap_cons, ih.flat, addr, ← hg]
+    rw [List.range'_append_1]
+  · rw [ih.pos]; omega
+  · intro s hs
+    rcases List.mem_cons.1 hs with rfl | hs
+    · refine ⟨by simp [hfi], ?_, h0⟩
+      show files[fi] - rem + rem ≤ files[fi]; omega
+    · exact ih.segok s hs
+  · intro s hs
+    rcases List.mem_cons.1 hs with rfl | hs
+    · exact Nat.le_refl _
+    · have := ih.lower s hs; omega
+  · simp only [List.map_cons, List.pairwise_cons]
+    refine ⟨?_, ih.incr⟩
+    intro a ha
+    obtain ⟨s, hs, rfl⟩ := List.mem_map.1 ha
+    have := ih.lower s hs; omega
+  · simp [ih.sumlen]
+  · rw [expFrom_step files _ _ fi hfi,
+      expFrom_lo_congr files (gpos files fi rem) (gpos files fi rem + rem) _ (fi+1) (by omega) (by omega)]
+    have hcl := ih.closed
+    rw [show gpos files fi rem + rem + n = gpos files fi rem + (rem + n) by omega] at hcl
+    rw [← hcl]
+    by_cases hr : rem = 0
+    · have : ¬ (max (gpos files fi rem) (base files fi) < min (gpos files fi rem + (rem + n)) (base files (fi+1))) := by omega
+      rw [if_neg this]
+      simp [List.filter, hr]
+    · have : (max (gpos files fi rem) (base files fi) < min (gpos files fi rem + (rem + n)) (base files (fi+1))) := by omega
+      simp only [this, if_true]
+      have h1 : max (gpos files fi rem) (base files fi) - base files fi = files[fi] - rem := by omega
+      have h2 : min (gpos files fi rem + (rem + n)) (base files (fi+1)) - max (gpos files fi rem) (base files fi) = rem := by omega
+      rw [h1, h2]
+      simp [List.filter, Nat.pos_of_ne_zero hr]
+
+/-! ### the inner loop -/
+
+theorem fill_done (L : Nat) (files : List Nat) (n counted fi rem : Nat) (acc : List Seg)
+    (h : ¬ counted < L) :
+    fill L files (n+1) counted fi rem acc = some (acc, fi, rem) := by
+  unfold fill; simp [h]
+
+/-- one iteration of the inner loop, case "the piece ends inside the current file" -/
+theorem fill_step_stop (L : Nat) (files : List Nat) (n counted fi rem : Nat) (acc : List Seg)
+    (hc : counted < L) (hfi : fi < files.length) (hrem : rem ≤ files[fi]) (hgt : L - counted < rem) :
+    fill L files (n+2) counted fi rem acc =
+      some (acc ++ [⟨fi, files[fi] - rem, L - counted, files[fi]⟩], fi, rem - (L - counted)) := by
+  have hget : files[fi]? = some files[fi] := List.getElem?_eq_getElem hfi
+  rw [fill]
+  have h1 : ¬ files[fi] < rem := by omega
+  have h2 : rem ≥ L - counted := by omega
+  have h3 : ¬ (rem - (L - counted) = 0) := by omega
+  simp only [hc, if_true, hget, h1, if_false, h2, h3]
+  rw [fill_done _ _ _ _ _ _ _ (by omega)]
+  have h4 : rem - (rem - (L - counted)) = L - counted := by omega
+  rw [h4]
+
+theorem fill_step_last (L : Nat) (files : List Nat) (n counted fi rem : Nat) (acc : List Seg)
+    (hc : counted < L) (hfi : fi < files.length) (hrem : rem ≤ files[fi]) (hle : rem ≤ L - counted)
+    (hlast : fi + 1 = files.length) :
+    fill L files (n+1) counted fi rem acc =
+      some (acc ++ [⟨fi, files[fi] - rem, rem, files[fi]⟩], fi + 1, 0) := by
+  have hget : files[fi]? = some files[fi] := List.getElem?_eq_getElem hfi
+  rw [fill]
+  have h1 : ¬ files[fi] < rem := by omega
+  have h3 : (if rem ≥ L - counted then rem - (L - counted) else 0) = 0 := by split <;> omega
+  simp only [hc, if_true, hget, h1, if_false, h3, hlast, Nat.sub_zero]
+
+theorem fill_step_next (L : Nat) (files : List Nat) (n counted fi rem : Nat) (acc : List Seg)
+    (hc : counted < L) (hfi : fi < files.length) (hrem : rem ≤ files[fi]) (hle : rem ≤ L - counted)
+    (hnext : fi + 1 < files.length) :
+    fill L files (n+1) counted fi rem acc =
+      fill L files n (counted + rem) (fi + 1) files[fi+1] (acc ++ [⟨fi, files[fi] - rem, rem, files[fi]⟩]) := by
+  have hget : files[fi]? = some files[fi] := List.getElem?_eq_getElem hfi
+  have hget' : files[fi+1]? = some files[fi+1] := List.getElem?_eq_getElem hnext
+  rw [fill]
+  have h1 : ¬ files[fi] < rem := by omega
+  have h3 : (if rem ≥ L - counted then rem - (L - counted) else 0) = 0 := by split <;> omega
+  have h4 : (if rem ≥ L - counted then L else counted + rem) = counted + rem := by split <;> omega
+  have h5 : ¬ (fi + 1 = files.length) := by omega
+  simp only [hc, if_true, hget, h1, if_false, h3, h4, h5, hget', Nat.sub_zero]
+
+
+theorem gpos_eq (files : List Nat) (fi rem : Nat) (hfi : fi < files.length) :
+    gpos files fi rem = base files fi + (files[fi] - rem) := by
+  simp [gpos, hfi]
+
+theorem fill_spec (L : Nat) (files : List Nat) :
+    ∀ fuel counted fi rem acc,
+      counted ≤ L → (hfi : fi < files.length) → rem ≤ files[fi] → (rem = 0 → files[fi] = 0) →
+      files.length - fi + 1 < fuel →
+      ∃ segs fi' rem', fill L files fuel counted fi rem acc = some (acc ++ segs, fi', rem') ∧
+        FillPost files (gpos files fi rem) (min (L - counted) (files.sum - gpos files fi rem)) fi
+          segs fi' rem' := by
+  intro fuel
+  induction fuel with
+  | zero => intro _ _ _ _ _ _ _ _ h; omega
+  | succ n ih =>
+    intro counted fi rem acc hcL hfi hrem h0 hfuel
+    have hbang : files[fi]! = files[fi] := by simp [hfi]
+    have hb1 := base_succ files fi hfi
+    have hb2 := base_le files (fi+1)
+    have hg := gpos_eq files fi rem hfi
+    by_cases hc : counted < L
+    · by_cases hgt : L - counted < rem
+      · -- the piece ends inside file fi
+        obtain ⟨m, rfl⟩ : ∃ m, n = m + 1 := ⟨n - 1, by omega⟩
+        refine ⟨_, _, _, fill_step_stop L files m counted fi rem acc hc hfi hrem hgt, ?_⟩
+        have hn : min (L - counted) (files.sum - gpos files fi rem) = L - counted := by omega
+        rw [hn]
+        refine FillPost_single files fi rem (L - counted) _ _ hfi hrem (by omega) (by omega) ?_ ?_
+        · rw [gpos_eq files fi _ hfi, hg]; omega
+        · refine Or.inr ⟨hfi, ?_, ?_⟩
+          · rw [hbang]; omega
+          · omega
+      · by_cases hlast : fi + 1 = files.length
+        · refine ⟨_, _, _, fill_step_last L files n counted fi rem acc hc hfi hrem (by omega) hlast, ?_⟩
+          have hb3 : base files (fi+1) = files.sum := by rw [hlast]; exact base_all files
+          have hn : min (L - counted) (files.sum - gpos files fi rem) = rem := by omega
+          rw [hn]
+          refine FillPost_single files fi rem rem _ _ hfi hrem (Nat.le_refl _) h0 ?_ ?_
+          · rw [hlast, gpos_end]; omega
+          · exact Or.inl ⟨hlast, rfl⟩
+        · have hnext : fi + 1 < files.length := by omega
+          have hg' : gpos files (fi+1) files[fi+1] = gpos files fi rem + rem := by
+            rw [gpos_eq files (fi+1) _ hnext, hg]; omega
+          obtain ⟨segs, fi', rem', heq, hpost⟩ :=
+            ih (counted + rem) (fi+1) files[fi+1] (acc ++ [⟨fi, files[fi] - rem, rem, files[fi]⟩])
+              (by omega) hnext (Nat.le_refl _) (fun h => h) (by omega)
+          refine ⟨⟨fi, files[fi] - rem, rem, files[fi]⟩ :: segs, fi', rem', ?_, ?_⟩
+          · rw [fill_step_next L files n counted fi rem acc hc hfi hrem (by omega) hnext, heq]
+            simp
+          · have hn : min (L - counted) (files.sum - gpos files fi rem) =
+                rem + min (L - (counted + rem)) (files.sum - (gpos files fi rem + rem)) := by omega
+            rw [hn]
+            rw [hg'] at hpost
+            exact FillPost_cons files fi rem _ fi' rem' segs hfi hrem h0 hpost
+    · obtain ⟨m, rfl⟩ : ∃ m, n = m + 1 := ⟨n - 1, by omega⟩
+      refine ⟨[], fi, rem, by rw [fill_done _ _ _ _ _ _ _ hc]; simp, ?_⟩
+      have hn : min (L - counted) (files.sum - gpos files fi rem) = 0 := by omega
+      rw [hn]
+      exact FillPost_nil files fi rem (Or.inr ⟨hfi, by rw [hbang]; exact hrem, by rw [hbang]; exact h0⟩)
+
+/-- the fuel `files.length + 2` given to `fill` by `multiLoop` is never exhausted (and no other
+    panic is reached) from a cursor satisfying the loop invariant -/
+theorem fill_fuel_enough (L : Nat) (files : List Nat) (fi rem : Nat) (hfi : fi < files.length)
+    (hrem : rem ≤ files[fi]) (h0 : rem = 0 → files[fi] = 0) :
+    (fill L files (files.length + 2) 0 fi rem []).isSome = true := by
+  obtain ⟨segs, fi', rem', heq, _⟩ :=
+    fill_spec L files (files.length + 2) 0 fi rem [] (Nat.zero_le _) hfi hrem h0 (by omega)
+  rw [heq]; rfl
+
+/-! ### the outer loop -/
+
+structure PieceGood (L : Nat) (files : List Nat) (h : Bytes) (i : Nat) (p : Piece) : Prop where
+  pos : p.pos = i
+  hash : p.hash = h
+  len : p.len = min L (files.sum - i * L)
+  flat : p.segs.flatMap (addr files) = List.range' (i * L) (min L (files.sum - i * L))
+  segok : ∀ s ∈ p.segs, SegOk files s
+  incr : (p.segs.map (·.file)).Pairwise (· < ·)
+  closed : p.segs.filter (fun s => s.len > 0) = expectedSegs L files i
+
+theorem expFrom_zero (files : List Nat) (lo hi : Nat) :
+    expFrom files lo hi 0 = expectedSegsAux lo hi files 0 0 := by
+  simp [expFrom, base_zero]
+
+theorem multi_spec (L : Nat) (files : List Nat) :
+    ∀ (hs : List Bytes) (k fi rem : Nat), CursorOk files fi rem →
+      gpos files fi rem = min (k * L) files.sum →
+      (∀ j, j < hs.length → (k + j) * L < files.sum) →
+      ∃ ps, multiLoop L files hs k fi rem = some ps ∧ ps.length = hs.length ∧
+        (∀ j (h1 : j < ps.length) (h2 : j < hs.length), PieceGood L files hs[j] (k + j) ps[j]) ∧
+        ps.flatMap (fun p => p.segs.flatMap (addr files)) =
+          List.range' (min (k * L) files.sum) (min ((k + hs.length) * L) files.sum - min (k * L) files.sum) := by
+  intro hs
+  induction hs with
+  | nil =>
+    intro k fi rem _ _ _
+    refine ⟨[], by simp [multiLoop], rfl, ?_, ?_⟩
+    · intro j h1; simp at h1
+    · simp
+  | cons h t ih =>
+    intro k fi rem hcur hg hlt
+    have hk : k * L < files.sum := by simpa using hlt 0 (by simp)
+    have hg0 : gpos files fi rem = k * L := by omega
+    rcases hcur with ⟨rfl, rfl⟩ | ⟨hfi, hrem, h0⟩
+    · rw [gpos_end] at hg0; omega
+    · have hbang : files[fi]! = files[fi] := by simp [hfi]
+      rw [hbang] at hrem h0
+      obtain ⟨segs, fi', rem', heq, hpost⟩ :=
+        fill_spec L files (files.length + 2) 0 fi rem [] (Nat.zero_le _) hfi hrem h0 (by omega)
+      rw [hg0, Nat.sub_zero] at hpost
+      simp only [List.nil_append] at heq
+      have hsucc : (k + 1) * L = k * L + L := Nat.succ_mul k L
+      obtain ⟨ps, hps, hlen, hgood, hflat⟩ := ih (k + 1) fi' rem' hpost.cursor
+        (by rw [hpost.pos]; omega)
+        (by intro j hj
+            have := hlt (j + 1) (by simpa using hj)
+            rwa [show k + 1 + j = k + (j + 1) by omega])
+      refine ⟨⟨k, segs, h, (segs.map (·.len)).sum⟩ :: ps, ?_, by simp [hlen], ?_, ?_⟩
+      · rw [multiLoop, heq]; simp only [hps]
+      · intro j h1 h2
+        cases j with
+        | zero =>
+          refine ⟨rfl, rfl, hpost.sumlen, hpost.flat, hpost.segok, hpost.incr, ?_⟩
+          show segs.filter _ = _
+          rw [hpost.closed, ← expFrom_zero_eq files _ _ fi (by omega) (by rw [← hg0, gpos_eq files fi rem hfi]; omega),
+            expFrom_zero, expectedSegs]
+          simp only [Nat.add_zero]
+          congr 1
+          omega
+        | succ j =>
+          have := hgood j (by simpa using h1) (by simpa using h2)
+          simpa [show k + (j + 1) = k + 1 + j by omega] using this
+      · simp only [List.flatMap_cons, hpost.flat, hflat]
+        have e1 : (k + (t.length + 1)) * L = k * L + t.length * L + L := by
+          rw [Nat.add_mul, Nat.succ_mul]; omega
+        have e2 : (k + 1 + t.length) * L = k * L + t.length * L + L := by
+          rw [← e1]; congr 1; omega
+        have e3 : min (k * L) files.sum = k * L := by omega
+        have e4 : min ((k + 1) * L) files.sum = k * L + min L (files.sum - k * L) := by omega
+        rw [List.length_cons, e3, e4, List.range'_append_1]
+        congr 1
+        omega
+
+/-! ### single-file loop, ceiling arithmetic, checker -/
+
+theorem single_spec (L total : Nat) (hL : 0 < L) :
+    ∀ (hs : List Bytes) (k start rem : Nat), start + rem = total →
+      start = min (k * L) total →
+      (∀ j, j < hs.length → (k + j) * L < total) →
+      (singleLoop L total hs k start rem).length = hs.length ∧
+        (∀ j (h1 : j < (singleLoop L total hs k start rem).length) (h2 : j < hs.length),
+          PieceGood L [total] hs[j] (k + j) (singleLoop L total hs k start rem)[j]) ∧
+        (singleLoop L total hs k start rem).flatMap (fun p => p.segs.flatMap (addr [total])) =
+          List.range' (min (k * L) total) (min ((k + hs.length) * L) total - min (k * L) total) := by
+  intro hs
+  induction hs with
+  | nil =>
+    intro k start rem _ _ _
+    refine ⟨rfl, ?_, ?_⟩
+    · intro j h1; simp [singleLoop] at h1
+    · simp [singleLoop]
+  | cons h t ih =>
+    intro k start rem hsum hst hlt
+    have hk : k * L < total := by simpa using hlt 0 (by simp)
+    have hst0 : start = k * L := by omega
+    have hsucc : (k + 1) * L = k * L + L := Nat.succ_mul k L
+    have hrl : (if rem < L then rem else L) = min L (total - k * L) := by split <;> omega
+    obtain ⟨hlen, hgood, hflat⟩ := ih (k + 1) (start + min L (total - k * L)) (rem - min L (total - k * L))
+        (by omega) (by omega)
+        (by intro j hj
+            have := hlt (j + 1) (by simpa using hj)
+            rwa [show k + 1 + j = k + (j + 1) by omega])
+    simp only [singleLoop, hrl]
+    refine ⟨by simp [hlen], ?_, ?_⟩
+    · intro j h1 h2
+      cases j with
+      | zero =>
+        simp only [List.getElem_cons_zero, Nat.add_zero]
+        refine ⟨rfl, rfl, rfl, ?_, ?_, ?_, ?_⟩
+        · simp [addr, base_zero, hst0]
+        · intro s hs
+          simp only [List.mem_singleton] at hs
+          subst hs
+          refine ⟨by simp, ?_, ?_⟩
+          · show start + min L (total - k * L) ≤ total; omega
+          · show min L (total - k * L) = 0 → total = 0; omega
+        · simp
+        · have hpos : min L (total - k * L) > 0 := by omega
+          have hlt' : max (k * L) 0 < min (min ((k + 1) * L) total) (0 + total) := by omega
+          simp only [List.filter, hpos, decide_true, expectedSegs, expectedSegsAux, List.sum_cons,
+            List.sum_nil, Nat.add_zero, hlt', if_true, List.append_nil]
+          congr 2
+          · omega
+          · omega
+      | succ j =>
+        have := hgood j (by simpa using h1) (by simpa using h2)
+        simpa [show k + (j + 1) = k + 1 + j by omega] using this
+    · simp only [List.flatMap_cons, hflat]
+      have e1 : (k + (t.length + 1)) * L = k * L + t.length * L + L := by
+        rw [Nat.add_mul, Nat.succ_mul]; omega
+      have e2 : (k + 1 + t.length) * L = k * L + t.length * L + L := by
+        rw [← e1]; congr 1; omega
+      have e3 : min (k * L) total = k * L := by omega
+      have e4 : min ((k + 1) * L) total = k * L + min L (total - k * L) := by omega
+      simp only [List.flatMap_nil, List.append_nil, addr, base_zero, Nat.zero_add]
+      rw [List.length_cons, e3, e4, hst0, List.range'_append_1]
+      congr 1
+      omega
+
+theorem ceil_lt (L total n : Nat) (hL : 0 < L) (hn : n = (total + L - 1) / L) :
+    ∀ j, j < n → (0 + j) * L < total := by
+  intro j hj
+  subst hn
+  have h1 : (j + 1) * L ≤ total + L - 1 := (Nat.le_div_iff_mul_le hL).1 hj
+  rw [Nat.succ_mul] at h1
+  rw [Nat.zero_add]; omega
+
+theorem ceil_ge (L total n : Nat) (hL : 0 < L) (hn : n = (total + L - 1) / L) :
+    total ≤ (0 + n) * L := by
+  subst hn
+  have h1 := Nat.lt_mul_div_succ (total + L - 1) hL
+  rw [Nat.mul_succ, Nat.mul_comm] at h1
+  rw [Nat.zero_add]; omega
+
+theorem increasingFiles_of_pairwise :
+    ∀ l : List Seg, (l.map (·.file)).Pairwise (· < ·) → increasingFiles l = true := by
+  intro l
+  induction l with
+  | nil => intro _; rfl
+  | cons a t ih =>
+    intro h
+    cases t with
+    | nil => rfl
+    | cons b r =>
+      simp only [List.map_cons, List.pairwise_cons] at h ih
+      simp only [increasingFiles, Bool.and_eq_true, decide_eq_true_eq]
+      exact ⟨h.1 _ (by simp), ih h.2⟩
+
+theorem checkPiece_of_good (L : Nat) (files : List Nat) (hashes : List Bytes) (h : Bytes) (i : Nat)
+    (p : Piece) (hg : PieceGood L files h i p) (hh : hashes[i]? = some h) :
+    checkPiece L files hashes i p = true := by
+  unfold checkPiece
+  simp only [Bool.and_eq_true, beq_iff_eq, List.all_eq_true, decide_eq_true_eq, Bool.or_eq_true]
+  refine ⟨⟨⟨⟨⟨hg.pos, by rw [hg.hash, hh]⟩, hg.len⟩, hg.closed⟩, ?_⟩, increasingFiles_of_pairwise _ hg.incr⟩
+  intro s hs
+  obtain ⟨h1, h2, h3⟩ := hg.segok s hs
+  refine ⟨⟨h1, h2⟩, ?_⟩
+  by_cases h0 : s.len = 0
+  · exact Or.inr (h3 h0)
+  · exact Or.inl (Nat.pos_of_ne_zero h0)
+
+theorem checkPiecesAux_of_forall (L : Nat) (files : List Nat) (hashes : List Bytes) :
+    ∀ (ps : List Piece) (i : Nat),
+      (∀ j (h : j < ps.length), checkPiece L files hashes (i + j) ps[j] = true) →
+      checkPiecesAux L files hashes i ps = true := by
+  intro ps
+  induction ps with
+  | nil => intros; rfl
+  | cons p t ih =>
+    intro i h
+    simp only [checkPiecesAux, Bool.and_eq_true]
+    refine ⟨h 0 (by simp), ih (i + 1) ?_⟩
+    intro j hj
+    have := h (j + 1) (by simpa using hj)
+    simpa [show i + (j + 1) = i + 1 + j by omega] using this
+
+theorem checkLayout_of_good (L : Nat) (files : List Nat) (hashes : List Bytes) (ps : List Piece)
+    (hlen : ps.length = hashes.length)
+    (hgood : ∀ j (h1 : j < ps.length) (h2 : j < hashes.length), PieceGood L files hashes[j] (0 + j) ps[j]) :
+    checkLayout L files hashes ps = true := by
+  unfold checkLayout
+  simp only [Bool.and_eq_true, beq_iff_eq]
+  refine ⟨hlen, checkPiecesAux_of_forall L files hashes ps 0 ?_⟩
+  intro j hj
+  have h2 : j < hashes.length := by omega
+  exact checkPiece_of_good L files hashes hashes[j] (0 + j) ps[j] (hgood j hj h2) (by simp [h2])
+
+/-! ### top level -/
+
+theorem multi_top (L : Nat) (files : List Nat) (hashes : List Bytes)
+    (hL : 0 < L) (hne : files ≠ []) (hcount : hashes.length = (files.sum + L - 1) / L) :
+    ∃ ps, constructMulti L files hashes = some ps ∧ ps.length = hashes.length ∧
+      (∀ j (h1 : j < ps.length) (h2 : j < hashes.length), PieceGood L files hashes[j] (0 + j) ps[j]) ∧
+      ps.flatMap (fun p => p.segs.flatMap (addr files)) = List.range' 0 files.sum := by
+  cases files with
+  | nil => exact absurd rfl hne
+  | cons f0 rest =>
+    have hcur : CursorOk (f0 :: rest) 0 f0 := Or.inr ⟨by simp, by simp, by simp⟩
+    have hg : gpos (f0 :: rest) 0 f0 = min (0 * L) (f0 :: rest).sum := by simp [gpos, base_zero]
+    obtain ⟨ps, hps, hlen, hgood, hflat⟩ :=
+      multi_spec L (f0 :: rest) hashes 0 0 f0 hcur hg (ceil_lt L _ _ hL hcount)
+    refine ⟨ps, hps, hlen, hgood, ?_⟩
+    rw [hflat]
+    have := ceil_ge L _ _ hL hcount
+    congr 1 <;> omega
+
+theorem single_top (L total : Nat) (hashes : List Bytes)
+    (hL : 0 < L) (hcount : hashes.length = (total + L - 1) / L) :
+    (constructSingle L total hashes).length = hashes.length ∧
+      (∀ j (h1 : j < (constructSingle L total hashes).length) (h2 : j < hashes.length),
+        PieceGood L [total] hashes[j] (0 + j) (constructSingle L total hashes)[j]) ∧
+      (constructSingle L total hashes).flatMap (fun p => p.segs.flatMap (addr [total])) =
+        List.range' 0 total := by
+  obtain ⟨hlen, hgood, hflat⟩ :=
+    single_spec L total hL hashes 0 0 total (by omega) (by omega) (ceil_lt L _ _ hL hcount)
+  refine ⟨hlen, hgood, ?_⟩
+  unfold constructSingle
+  rw [hflat]
+  have := ceil_ge L _ _ hL hcount
+  congr 1 <;> omega
+
+theorem evaluateInfo_ok (ks : List StrTok) (vs : List Tok) (info : Info)
+    (h : evaluateInfo ks vs = .ok info) :
+    (∃ l, info.length = some l ∧ info.files = none ∧
+        pieceCountOk l info.pieceLength info.pieces.length = true) ∨
+    (∃ fs, info.length = none ∧ info.files = some fs ∧ fs ≠ [] ∧
+        pieceCountOk ((fs.map (·.length)).sum) info.pieceLength info.pieces.length = true) := by
+  unfold evaluateInfo at h
+  simp only [] at h
+  repeat' split at h
+  all_goals first | contradiction | skip
+  all_goals cases h
+  all_goals first
+    | exact Or.inl ⟨_, rfl, rfl, by assumption⟩
+    | (refine Or.inr ⟨_, rfl, rfl, ?_, by assumption⟩
+       intro hnil; simp_all)
+
+
+theorem load_ok (H : Bytes → Bytes) (inp : Bytes) (T : Torrent) (h : load H inp = .ok T) :
+    ∃ ks vs, evaluateInfo ks vs = .ok T.info := by
+  unfold load at h
+  repeat' split at h
+  all_goals first | contradiction | skip
+  cases h
+  exact ⟨_, _, by assumption⟩
+
 end TB
